@@ -138,7 +138,11 @@ LEAF_KINDS = ['sym:%d', 'role:r%d', 'rule:n%d', 'a.b%d:%%(x)s',
               "'lit%d':%%(y.z)s", 'http://h%d.example/%%(name)s', '@', '!',
               'True:%%(u.e%d)s', '[1,2]:%%(ids)s', '1,2:%%(ids)s',
               '1e999:%%(x)s', '0x1%d:%%(x)s', '"q%d":%%(x)s', '{1:2}:%%(x)s',
-              '-0.0:%%(x)s', 'None:%%(x)s']
+              '-0.0:%%(x)s', 'None:%%(x)s',
+              # characters beyond ASCII and beyond the BMP (a dump escapes
+              # them; the loader has to put them together again)
+              'role:\U0001f600%d', 'role:caf\u00e9%d',
+              "'\U0001f600':%%(x)s"]
 
 
 def _gen_nested(rng, budget, nleaf):
@@ -185,7 +189,9 @@ def run_nested(ctx, seed, index, budget):
     # through the credentials / enforcer; http leaves are replaced by sym
     enf = common.mk_enforcer(rules=policy.Rules.from_dict(
         {'n%d' % i: 'sym:n%d' % i for i in range(4)}))
-    creds = {'roles': ctx.roles('role', ['r0', 'r1', 'r2', 'r3'])}
+    creds = {'roles': ctx.roles('role', ['r0', 'r1', 'r2', 'r3'] + [
+        p + str(i) for p in ('\U0001f600', 'caf\u00e9') for i in range(4)
+        if 'role:%s%d' % (p, i) in text])}
     semantic = 'http:' not in text
     # generic leaves are compared on targets that make them pass or fail
     tmenu = [{}, {'ids': [1, 2], 'x': 'inf', 'y': {'z': 'lit0'}},
@@ -375,6 +381,9 @@ def run_rulesets(ctx, seed, index):
         else:
             t = _gen_nested(rng, rng.choice([3, 7, 11]), 3)
             texts['p%d' % i] = _render_full(t)
+    if rng.random() < 0.5:
+        # a name beyond the BMP, too
+        texts['n\U0001f6000'] = 'role:r0 or role:\U0001f6001'
     rules = policy.Rules.from_dict(texts, 'p0')
     dumped = str(rules)
     again = policy.Rules.load(dumped, 'p0')
@@ -385,9 +394,16 @@ def run_rulesets(ctx, seed, index):
     ctx.require(str(again) == dumped, 'rulesets:text-changed',
                 detail={'texts': texts, 'dumped': dumped,
                         'again': str(again)})
+    # rule by rule (the dump escapes non-ASCII characters: equal dumps do
+    # not show that the loaded rules are the same)
+    want_p = {k: str(v) for k, v in rules.items()}
+    got_p = {k: str(v) for k, v in again.items()}
+    ctx.require(got_p == want_p, 'rulesets:rule-text-changed',
+                detail={'texts': texts, 'want': want_p, 'got': got_p})
     e1 = common.mk_enforcer(rules=rules, default_rule='p0')
     e2 = common.mk_enforcer(rules=again, default_rule='p0')
-    creds = {'roles': ctx.roles('role', ['r0', 'r1', 'r2'])}
+    creds = {'roles': ctx.roles('role', ['r0', 'r1', 'r2', '\U0001f6000',
+                                         '\U0001f6001', 'caf\u00e91'])}
     semantic = 'http:' not in dumped
     for name in sorted(rules):
         if name not in again:
